@@ -354,6 +354,15 @@ func (s *segment) seal() {
 	s.Index.Shrink() // nolint: errcheck
 }
 
+// Unseal marks a segment as not sealed. This is used when a truncation turns a
+// sealed segment back into the active segment, such that readers waiting on it
+// are notified when it is sealed the next time.
+func (s *segment) Unseal() {
+	s.Lock()
+	s.sealed = false
+	s.Unlock()
+}
+
 func (s *segment) NextOffset() int64 {
 	s.RLock()
 	defer s.RUnlock()
